@@ -10,16 +10,23 @@ import toy
 REQUIRED_THEOREMS = [
     'C08_history_independent', 'C08_eval_substitution', 'C08_grad_restriction', 'C08_names',
     'C08_counts', 'C08_order_independent', 'C08_release_restores', 'C08_buffer_garbage_irrelevant',
-    'C08_composite']
+    'C08_composite', 'C08_resized_history', 'C08_resized_observables', 'C08_resize_positional_counterexample']
 RULE = ('random histories (length 0-12; thorough: also all histories of length <=3 over a small alphabet) '
         'of fix / re-fix / release dictionaries on every reducible object (Reduced error / mechanistic / '
         'population models, LogLikelihood, PredictiveModel, PopulationPredictiveModel); after every '
         'call names, counts, values, pointwise values, restricted gradients and seeded samples are compared '
         'with the unfixed object under substitution; non-trivial = history with a re-fix or a release of a '
-        'previously fixed name; distinct = distinct (object kind, history shape)')
+        'previously fixed name; distinct = distinct (object kind, history shape). Lives of reduced population '
+        'models around heterogeneous blocks (any position, 1-4 sub-models) in which the number of modelled '
+        'individuals changes between the calls (set_n_ids, HierarchicalLogLikelihood over the model, controller '
+        'receiving the model; also renamed dimensions): after every event compared with a FRESH unfixed model '
+        'at the net dictionary; non-trivial = a fixed pair carried over / dropped by a change of the parameter list')
 ASSUMPTIONS = ['the wrapped evaluation is an arbitrary function of the full parameter vector (theorem '
                'C08_eval_substitution is parametric in it)',
-               'dict semantics: last binding of a key wins; unknown names are ignored']
+               'dict semantics: last binding of a key wins; unknown names are ignored',
+               'when the parameter list of a wrapped population model changes (number of individuals), the fixed '
+               'name-value pairs whose names are still parameters stay fixed, the others are forgotten '
+               '(C08_resized_history assumes distinct parameter names and that a change of the list changes its length)']
 
 
 # ----------------------------------------------------------------------------------------------
@@ -48,6 +55,9 @@ class Adapter(object):
 
     def draw(self, rng, name):
         return float(rng.uniform(0.5, 1.5))
+
+    def tag_kind(self):
+        return self.kind.split('/')[0]
 
     def disturb_copy(self, rng):
         """a copy of the object is taken and fixed / released on: the original is a different object"""
@@ -243,6 +253,21 @@ class PopAdapter(Adapter):
         got = [[int(x[0]), int(x[1]), int(x[2]), int(x[3]), bool(x[4])] for x in self.obj.get_special_dims()[0]]
         return got, want
 
+    def prepare(self, full, rng):
+        """individual parameters for the next evaluation: mostly consistent with the pooled / heterogeneous
+        values of the full vector (computed on the UNFIXED reference), so that the scores are finite and the
+        gradients are compared; sometimes arbitrary (the score is -inf where such a dimension is present)"""
+        n_ids = self.n_ids
+        raw = rng.uniform(0.5, 1.5, (n_ids, self.ref.n_dim()))
+        self.psi = raw
+        if rng.random() < 0.7:
+            try:
+                psi = np.array(self.ref.compute_individual_parameters(np.asarray(full, float), raw), float)
+                if psi.shape == raw.shape and np.all(np.isfinite(psi)):
+                    self.psi = psi
+            except Exception:  # noqa
+                pass
+
     def evals(self, free):
         o = self.obj
         free = np.asarray(free, float)
@@ -264,6 +289,126 @@ class PopAdapter(Adapter):
         return {'value': r.compute_log_likelihood(full, self.psi), 'S1score': sc, 'grad': g[gm],
                 'sample': r.sample(full, n_samples=3, seed=5),
                 'indiv': np.array(r.compute_individual_parameters(full, self.psi), float)}
+
+
+POP_PARTS = ['G', 'Gn', 'LN', 'LNn', 'P', 'TG', 'H']
+
+
+def pop_part(chi, code, d):
+    if code == 'G':
+        return chi.GaussianModel(n_dim=d)
+    if code == 'Gn':
+        return chi.GaussianModel(n_dim=d, centered=False)
+    if code == 'LN':
+        return chi.LogNormalModel(n_dim=d)
+    if code == 'LNn':
+        return chi.LogNormalModel(n_dim=d, centered=False)
+    if code == 'P':
+        return chi.PooledModel(n_dim=d)
+    if code == 'TG':
+        return chi.TruncatedGaussianModel(n_dim=d)
+    return chi.HeterogeneousModel(n_dim=d)
+
+
+class PopResizeAdapter(PopAdapter):
+    """a reduced population model around a heterogeneous block (one parameter per individual and dimension) at
+    any position among other sub-models: between the fix / re-fix / release calls the NUMBER OF MODELLED
+    INDIVIDUALS changes — by set_n_ids, by building a HierarchicalLogLikelihood over the model, by handing the
+    model to a ProblemModellingController with data — so the wrapped model's parameter list grows / shrinks
+    in the middle.  The name-value pairs fixed so far stay fixed as far as their names are still parameters;
+    the reference is always a FRESH unfixed model of the same recipe at the new number of individuals."""
+    kind = 'ReducedPopulationModel/n_ids-changes'
+
+    def __init__(self, chi, rng):
+        self.chi = chi
+        k = int(rng.integers(1, 5))
+        parts = [(POP_PARTS[int(rng.integers(len(POP_PARTS)))], int(rng.integers(1, 3))) for _ in range(k)]
+        if not any(c == 'H' for c, _ in parts):
+            parts[int(rng.integers(k))] = ('H', int(rng.integers(1, 3)))
+        if sum(d for _, d in parts) < 2:
+            parts.insert(int(rng.integers(2)), (POP_PARTS[int(rng.integers(6))], 1))
+        self.parts = parts
+        D = sum(d for _, d in parts)
+        self.dim_names = ['d%d' % j for j in range(D)]
+        self.n_ids = int(rng.integers(1, 5))
+        self.ref = self.fresh(self.n_ids)
+        if rng.random() < 0.5:
+            # the wrapped model has its size when it is wrapped
+            self.obj = chi.ReducedPopulationModel(self.fresh(self.n_ids))
+        else:
+            # wrapped first, sized through the wrapper
+            self.obj = chi.ReducedPopulationModel(self.fresh(None))
+            self.obj.set_n_ids(self.n_ids)
+        self.changed = False
+        self.owner_report = None
+        self.kind = 'ReducedPopulationModel/n_ids-changes/' + '-'.join('%s%d' % p for p in parts)
+
+    def fresh(self, n_ids, dim_names=None):
+        ms = [pop_part(self.chi, c, d) for c, d in self.parts]
+        m = ms[0] if len(ms) == 1 else self.chi.ComposedPopulationModel(ms)
+        if n_ids is not None:
+            m.set_n_ids(n_ids)
+        m.set_dim_names(list(self.dim_names if dim_names is None else dim_names))
+        return m
+
+    def tag_kind(self):
+        return 'ReducedPopulationModel' + ('.after_n_ids_change' if self.changed else '')
+
+    def names_beyond(self):
+        """names of individuals that are not modelled (yet)"""
+        cur = set(self.ref.get_parameter_names())
+        return [n for n in self.fresh(self.n_ids + 1).get_parameter_names() if n not in cur]
+
+    def rename(self, rng):
+        old = self.ref.get_parameter_names()
+        tag = 'r%d' % int(rng.integers(1000))
+        self.dim_names = ['%s%d' % (tag, d) for d in range(len(self.dim_names))]
+        self.obj.set_dim_names(list(self.dim_names))
+        self.ref = self.fresh(self.n_ids)
+        return dict(zip(old, self.ref.get_parameter_names()))
+
+    def change_n_ids(self, rng):
+        """returns (description, old -> new name map or None): the number of individuals changes by one of
+        the public routes; the controller also renames the dimensions after its bottom-level parameters"""
+        chi = self.chi
+        n1 = int(rng.integers(1, 6))
+        route = ['set_n_ids', 'HierarchicalLogLikelihood', 'controller'][int(rng.integers(3))]
+        D = len(self.dim_names)
+        m = None
+        self.owner_report = None
+        if route == 'set_n_ids':
+            self.obj.set_n_ids(n1)
+        elif route == 'HierarchicalLogLikelihood':
+            lls = [chi.LogLikelihood(toy.ToyModel(1, D - 1, 5), chi.GaussianErrorModel(), [1.0, 2.0], [1.0, 2.0])
+                   for _ in range(n1)]
+            hll = chi.HierarchicalLogLikelihood(lls, self.obj)
+            # the life goes on with the model the likelihood holds (whether or not it is the object handed in)
+            self.obj = hll.get_population_model()
+            self.owner_report = ('HierarchicalLogLikelihood', list(hll.get_parameter_names(exclude_bottom_level=True)),
+                                 int(hll.n_parameters(exclude_bottom_level=True)))
+            self.keep_alive = hll
+        else:
+            import pandas as pd
+            c = chi.ProblemModellingController(toy.ToyModel(1, D - 1, 5), [chi.GaussianErrorModel()])
+            c.set_data(pd.DataFrame([{'ID': 'p%d' % i, 'Time': 1.0, 'Observable': 'obs0', 'Value': 1.0 + i}
+                                     for i in range(n1)]), output_observable_dict={'out0': 'obs0'})
+            bottom = list(c.get_parameter_names())
+            c.set_population_model(self.obj)
+            n = int(c.get_n_parameters())
+            self.owner_report = ('ProblemModellingController', list(c.get_parameter_names()), n)
+            if n > 0:
+                # the life goes on with the model the controller works with
+                c.set_log_prior(ControllerAdapter.flat(n))
+                self.obj = ControllerAdapter.first(c.get_log_posterior()).get_log_likelihood().get_population_model()
+            self.keep_alive = c
+            # the same reference recipe before and after the renaming, at the NEW number of individuals
+            before = self.fresh(n1).get_parameter_names()
+            self.dim_names = bottom
+            m = dict(zip(before, self.fresh(n1).get_parameter_names()))
+        self.n_ids = n1
+        self.ref = self.fresh(n1)
+        self.changed = True
+        return {'n_ids': n1, 'by': route}, m
 
 
 def make_ll(chi, rng):
@@ -608,17 +753,21 @@ def history_shape(ops):
     return 'len%d%s%s' % (min(len(ops), 6), '+refix' if refix else '', '+release' if release else '')
 
 
-def compare(ctx, ad, ops_so_far, rng, inp):
+def compare(ctx, ad, ops_so_far, rng, inp, net=None, segs=None):
+    """`ops_so_far`: the history on a constant parameter list; or (`net`, `segs`): the net dictionary of a life
+    in which the parameter list changed and the life as stretches [names, ops] for the Lean model"""
     names = ad.names()
-    net = net_of(ops_so_far)
+    if net is None:
+        net = net_of(ops_so_far)
+    tk = ad.tag_kind()
     free_names = [n for n in names if n not in net]
     mask = np.array([n not in net for n in names], bool)
     rep_names, rep_n, rep_fixed = ad.reported()
-    ctx.spec('C08.names/' + ad.kind.split('/')[0], list(rep_names) == free_names, inp,
+    ctx.spec('C08.names/' + tk, list(rep_names) == free_names, inp,
              {'reported': list(rep_names), 'expected': free_names})
-    ctx.spec('C08.count/' + ad.kind.split('/')[0], rep_n == len(free_names), inp, {'reported': rep_n})
+    ctx.spec('C08.count/' + tk, rep_n == len(free_names), inp, {'reported': rep_n})
     if rep_fixed is not None:
-        ctx.spec('C08.n_fixed/' + ad.kind.split('/')[0], rep_fixed == len(names) - len(free_names), inp)
+        ctx.spec('C08.n_fixed/' + tk, rep_fixed == len(names) - len(free_names), inp)
     if hasattr(ad, 'special_dims_spec'):
         try:
             got_sd, want_sd = ad.special_dims_spec(net)
@@ -630,8 +779,12 @@ def compare(ctx, ad, ops_so_far, rng, inp):
     it = iter(free)
     full = np.array([net[n] if n in net else next(it) for n in names], float)
     grad_probe = np.arange(len(names), dtype=float) + 1.0
-    mo = ctx.model('C08.history', names, [[[n, v] for n, v in d] for d in ops_so_far], list(free),
-                   list(grad_probe))
+    if segs is None:
+        mo = ctx.model('C08.history', names, [[[n, v] for n, v in d] for d in ops_so_far], list(free),
+                       list(grad_probe))
+    else:
+        mo = ctx.model('C08.segments', [[list(ns), [[[n, v] for n, v in d] for d in ops]] for ns, ops in segs],
+                       list(free), list(grad_probe))
     ctx.agree('C08.names', list(rep_names), mo[2], inp)
     ctx.agree('C08.count', rep_n, mo[3], inp)
     if rep_fixed is not None:
@@ -642,6 +795,9 @@ def compare(ctx, ad, ops_so_far, rng, inp):
         ctx.branches.add('all-fixed')
         return
     gerr = werr = None
+    if hasattr(ad, 'prepare'):
+        with np.errstate(all='ignore'):
+            ad.prepare(full, rng)
     try:
         with np.errstate(all='ignore'):
             got = ad.evals(free)
@@ -654,7 +810,7 @@ def compare(ctx, ad, ops_so_far, rng, inp):
         werr = e
     if gerr is not None or werr is not None:
         # a refusal (e.g. sampling with a scale fixed at zero) must be the unfixed object's refusal too
-        ctx.spec('C08.eval_raises/' + ad.kind.split('/')[0], type(gerr) is type(werr), inp,
+        ctx.spec('C08.eval_raises/' + tk, type(gerr) is type(werr), inp,
                  {'reduced_object': repr(gerr)[:200], 'unfixed_at_substituted': repr(werr)[:200]})
         return
     seen = ad.full_seen()
@@ -672,15 +828,15 @@ def compare(ctx, ad, ops_so_far, rng, inp):
         g = got[label]
         if isinstance(g, str):
             # sensitivities cannot be requested when every mechanistic parameter is fixed (#22)
-            ctx.spec(TAG22 if all_mech_fixed(names, net) else 'C08.grad_raises/' + ad.kind.split('/')[0],
+            ctx.spec(TAG22 if all_mech_fixed(names, net) else 'C08.grad_raises/' + tk,
                      False, inp, {'raised': g})
             continue
         if label.startswith('names'):
-            ctx.spec('C08.%s/%s' % (label, ad.kind.split('/')[0]), list(g) == list(w), inp,
+            ctx.spec('C08.%s/%s' % (label, tk), list(g) == list(w), inp,
                      {'reported': list(g), 'expected': list(w)})
             continue
         ok = core.close(np.asarray(g, float), np.asarray(w, float))
-        ctx.spec('C08.%s/%s' % (label, ad.kind.split('/')[0]), ok, inp,
+        ctx.spec('C08.%s/%s' % (label, tk), ok, inp,
                  {'reduced': np.asarray(g, float), 'unfixed_at_substituted': np.asarray(w, float)})
 
 
@@ -728,6 +884,90 @@ def run_history(ctx, chi, A, rng, length, ops=None):
         compare(ctx, ad, pre + ops[:k + 1], rng, dict(inp, step=k + 1))
 
 
+def run_resized_life(ctx, chi, A, rng, length):
+    """fix / re-fix / release calls interleaved with changes of the number of modelled individuals (and
+    renamings of the dimensions); after every event the object is compared with a fresh unfixed model at the
+    net dictionary: last write wins, None releases, a request for a name that is no parameter at the time is
+    ignored, and a pair whose name stops being a parameter is forgotten"""
+    ad = A(chi, rng)
+    names = list(ad.names())
+    net = {}
+    segs = [[names, []]]
+    events = []
+    inp = {'object': ad.kind, 'n_ids': ad.n_ids, 'names': names, 'events': events}
+    shape = {'fix': 0, 'n_ids': 0, 'grow': False, 'shrink': False, 'carried': False, 'dropped': False}
+    compare(ctx, ad, None, rng, dict(inp, step=0), net=dict(net), segs=segs)
+    for k in range(length):
+        c = rng.random()
+        try:
+            if c < 0.3:
+                n0 = ad.n_ids
+                desc, m = ad.change_n_ids(rng)
+                events.append(['change_n_ids', desc])
+                names = list(ad.names()) if m is None else list(m.keys())
+                shape['n_ids'] += 1
+                shape['grow'] |= ad.n_ids > n0
+                shape['shrink'] |= ad.n_ids < n0
+                if ad.n_ids != n0 and net:
+                    shape['carried'] |= any(n in names for n in net)
+                    shape['dropped'] |= any(n not in names for n in net)
+                net = {n: v for n, v in net.items() if n in names}
+                if names != segs[-1][0]:
+                    segs.append([names, []])
+                if m is not None:
+                    net = {m[n]: v for n, v in net.items()}
+                    names = list(ad.names())
+                    if names != segs[-1][0]:
+                        segs.append([names, []])
+                if ad.owner_report is not None:
+                    # what the new owner of the model reports: the free parameters, in order
+                    owner, o_names, o_n = ad.owner_report
+                    want = [n for n in names if n not in net]
+                    ctx.spec('C08.names_reported_by_owner_of_resized_model/' + owner,
+                             o_names == want and o_n == len(want), dict(inp, step=k + 1, events=[list(e) for e in events]),
+                             {'reported': o_names, 'count': o_n, 'expected': want})
+            elif c < 0.4:
+                m = ad.rename(rng)
+                events.append(['set_dim_names', list(ad.dim_names)])
+                net = {m[n]: v for n, v in net.items()}
+                names = list(ad.names())
+                segs.append([names, []])
+            else:
+                d = gen_history(rng, names, ad, 1)[0]
+                if rng.random() < 0.2:
+                    beyond = ad.names_beyond()
+                    if beyond:
+                        d.append((beyond[int(rng.integers(len(beyond)))], ad.draw(rng, '')))
+                events.append(['fix_parameters', [[n, v] for n, v in d]])
+                shape['fix'] += 1
+                ad.fix(dict(d))
+                for n, v in d:
+                    if n in names:
+                        if v is None:
+                            net.pop(n, None)
+                        else:
+                            net[n] = v
+                segs[-1][1].append(d)
+        except Exception as e:  # noqa
+            ctx.spec('C08.event_raises/' + ad.tag_kind(), False, dict(inp, step=k + 1), {'raised': repr(e)[:200]})
+            return
+        if len(set(names)) != len(names):
+            ctx.branches.add('n_ids-changes/duplicate-names')
+        if rng.random() < 0.2:
+            try:
+                ad.disturb_copy(rng)
+            except Exception as e:  # noqa
+                ctx.spec('C08.copy_raises/' + ad.tag_kind(), False, dict(inp, step=k + 1), {'raised': repr(e)[:200]})
+        compare(ctx, ad, None, rng, dict(inp, names=names, step=k + 1, events=[list(e) for e in events]),
+                net=dict(net), segs=[[list(ns), list(ops)] for ns, ops in segs])
+    key = 'fix%d/n_ids%d%s%s%s%s' % (min(shape['fix'], 3), min(shape['n_ids'], 3), '+grow' if shape['grow'] else '',
+                                   '+shrink' if shape['shrink'] else '', '+carried' if shape['carried'] else '',
+                                   '+dropped' if shape['dropped'] else '')
+    ctx.case('ReducedPopulationModel/n_ids-changes/' + key,
+             nontrivial=('ReducedPopulationModel/n_ids-changes/' + key) if (shape['carried'] or shape['dropped']) else False,
+             sample=dict(inp, events=[list(e) for e in events]))
+
+
 def exhaustive(ctx, chi):
     """all histories of length <= 3 over single-name requests {fix a, release a, fix b, release b}"""
     import itertools
@@ -756,6 +996,10 @@ def run(ctx):
         rng = ctx.sub_rng(i)
         A = ADAPTERS[i % len(ADAPTERS)]
         ctx.guard(run_history, ctx, chi, A, rng, int(rng.integers(0, 13 if ctx.tier == 'thorough' else 9)))
+    for i in range(n // 8):
+        rng = ctx.sub_rng(100000 + i)
+        ctx.guard(run_resized_life, ctx, chi, PopResizeAdapter, rng,
+                  int(rng.integers(1, 13 if ctx.tier == 'thorough' else 9)))
     if ctx.tier == 'thorough':
         exhaustive(ctx, chi)
 
